@@ -182,7 +182,8 @@ class Concat(Expr):
             # refer to https://github.com/dask/dask/issues/4685
             # and https://github.com/dask/dask/issues/5968.
             if is_dataframe_like(df._meta):
-                shared_columns = list(set(df.columns).intersection(self._meta.columns))
+                # in the order of the frame: the dtypes are part of the name
+                shared_columns = [c for c in df.columns if c in self._meta.columns]
                 needs_astype = {
                     col: self._meta[col].dtype
                     for col in shared_columns
